@@ -176,8 +176,11 @@ class Minimiser:
         os.makedirs(self.tmp, exist_ok=True)
         self.best_out = None
 
+    def exhausted(self):
+        return self.n_cand >= self.max_cand or time.time() > self.deadline
+
     def ok(self, dec, cfg):
-        if self.n_cand >= self.max_cand or time.time() > self.deadline:
+        if self.exhausted():
             return False
         self.n_cand += 1
         cand = dict(self.t)
@@ -213,9 +216,9 @@ class Minimiser:
             dec = dec[:hi]
         # (b) zero chunks of halving size
         chunk = max(1, len(dec) // 2)
-        while chunk >= 1 and len(dec) > 0:
+        while chunk >= 1 and len(dec) > 0 and not self.exhausted():
             i = 0
-            while i < len(dec):
+            while i < len(dec) and not self.exhausted():
                 if any(dec[i:i + chunk]):
                     cand = dec[:i] + [0] * len(dec[i:i + chunk]) + dec[i + chunk:]
                     if self.ok(cand, cfg):
@@ -226,6 +229,8 @@ class Minimiser:
             chunk //= 2
         # (c) shrink non-zero values towards 1
         for i, v in enumerate(dec):
+            if self.exhausted():
+                break
             if v > 1:
                 cand = list(dec)
                 cand[i] = 1
@@ -233,6 +238,8 @@ class Minimiser:
                     dec = cand
         # (d) configuration knobs towards smaller values (same decision list)
         for k in sorted(cfg):
+            if self.exhausted():
+                break
             if k.startswith("f.") or cfg[k] <= 0:
                 continue
             for nv in (0, cfg[k] // 2, cfg[k] - 1):
